@@ -5,9 +5,13 @@ import (
 	"os"
 	"path/filepath"
 	"sort"
+	"sync"
+	"sync/atomic"
+	"time"
 
 	"github.com/lindb/lindb/kv"
 	"github.com/lindb/lindb/kv/table"
+	"github.com/lindb/lindb/pkg/verifhook"
 
 	"lindbverif/vh"
 )
@@ -15,19 +19,59 @@ import (
 // several families of one store: create-family / flush / reopen at operation granularity; after every operation the id
 // under which every pool name is registered and the contents its family shows (one content id per committed flush).
 type famOp struct {
-	K string `json:"k"` // create, flush, reopen, crash
-	N int    `json:"n,omitempty"`
-	C int    `json:"c,omitempty"`
+	K  string `json:"k"` // create, flush, reopen, crash, race
+	N  int    `json:"n,omitempty"`
+	C  int    `json:"c,omitempty"`
+	M  int    `json:"m,omitempty"`  // race: the family whose commit holds the manifest lock while two commits of family N queue
+	C2 int    `json:"c2,omitempty"` // race: content of the second commit of family N
+	C3 int    `json:"c3,omitempty"` // race: content of the commit of family M
+}
+
+// raceCommits: the first commit is held while it appends its manifest record (it holds the version set's lock), the
+// others are started and queue behind it; after its release the first of them to reach its own append is held until the
+// other one waits for the lock.  On any tree every commit returns; what they leave behind is observed afterwards.
+func raceCommits(first kv.Flusher, others ...kv.Flusher) []error {
+	var arrivals atomic.Int32
+	hold := make(chan struct{})
+	verifhook.Set(func(pt string) {
+		if pt != "kv.fs.appendRecord" {
+			return
+		}
+		switch arrivals.Add(1) {
+		case 1:
+			<-hold
+		case 2:
+			time.Sleep(30 * time.Millisecond)
+		}
+	})
+	defer verifhook.Set(nil)
+	errs := make([]error, 1+len(others))
+	var wg sync.WaitGroup
+	wg.Add(1)
+	go func() { defer wg.Done(); errs[0] = first.Commit() }()
+	for i := 0; i < 1000 && arrivals.Load() < 1; i++ {
+		time.Sleep(time.Millisecond)
+	}
+	for i := range others {
+		wg.Add(1)
+		go func(i int) { defer wg.Done(); errs[i+1] = others[i].Commit() }(i)
+	}
+	time.Sleep(30 * time.Millisecond)
+	close(hold)
+	wg.Wait()
+	return errs
 }
 
 func (o famOp) coq() string {
 	switch o.K {
-	case "create":
-		return fmt.Sprintf("Families.CreateFam %d", o.N)
 	case "flush":
-		return fmt.Sprintf("Families.Flush %d %d", o.N, o.C)
+		return fmt.Sprintf("[Families.Flush %d %d]", o.N, o.C)
+	case "race":
+		return fmt.Sprintf("[Families.Flush %d %d; Families.Flush %d %d; Families.Flush %d %d]", o.N, o.C, o.N, o.C2, o.M, o.C3)
+	case "create":
+		return fmt.Sprintf("[Families.CreateFam %d]", o.N)
 	}
-	return "Families.Reopen"
+	return "[Families.Reopen]"
 }
 
 func famName(n int) string { return fmt.Sprintf("fam%d", n) }
@@ -102,6 +146,29 @@ func runFamilies(out *vh.Out, root string, id int, ops []famOp, name string) {
 				failed = "flush commit: " + err.Error()
 			}
 			fl.Release()
+		case "race":
+			famN, famM := st.GetFamily(famName(o.N)), st.GetFamily(famName(o.M))
+			if famN == nil || famM == nil || o.N == o.M {
+				continue
+			}
+			// tables are built (and numbered) in the order A, B, G; only the commits race
+			flA, flB, flG := famN.NewFlusher(), famN.NewFlusher(), famM.NewFlusher()
+			for _, fc := range []struct {
+				fl kv.Flusher
+				c  int
+			}{{flA, o.C}, {flB, o.C2}, {flG, o.C3}} {
+				if err := fc.fl.Add(uint32(fc.c), []byte{byte(fc.c)}); err != nil {
+					failed = "flush add: " + err.Error()
+				}
+			}
+			for _, err := range raceCommits(flG, flA, flB) {
+				if err != nil {
+					failed = "racing flush commit: " + err.Error()
+				}
+			}
+			flA.Release()
+			flB.Release()
+			flG.Release()
 		case "reopen", "crash":
 			next := cur
 			if o.K == "crash" {
@@ -141,12 +208,12 @@ func runFamilies(out *vh.Out, root string, id int, ops []famOp, name string) {
 		out.Count("families-op:" + o.K)
 	}
 	idx := out.Case(map[string]interface{}{"kind": "families", "name": name, "ops": ops, "failed": failed},
-		kinds["create"] >= 2 && kinds["flush"] >= 2 && kinds["reopen"]+kinds["crash"] >= 1)
+		kinds["create"] >= 2 && kinds["flush"]+kinds["race"] >= 2 && kinds["reopen"]+kinds["crash"] >= 1)
 	out.Count("families-histories")
 	if failed != "" {
 		out.Violation(idx, "families", "an operation of a multi-family history failed: "+failed, nil)
 	}
-	out.Check(idx, fmt.Sprintf("check_families [1; 2; 3] %s\n %s", vh.List(oc), vh.List(obs)))
+	out.Check(idx, fmt.Sprintf("check_family_groups [1; 2; 3] %s\n %s", vh.List(oc), vh.List(obs)))
 }
 
 func familiesCases(out *vh.Out, root string, r *vh.Rand, n int, id *int) {
@@ -155,6 +222,10 @@ func familiesCases(out *vh.Out, root string, r *vh.Rand, n int, id *int) {
 	dir := []famOp{{K: "create", N: 1}, {K: "flush", N: 1, C: c}, {K: "reopen"}, {K: "create", N: 2}, {K: "flush", N: 2, C: c + 1},
 		{K: "flush", N: 1, C: c + 2}, {K: "crash"}, {K: "create", N: 3}, {K: "flush", N: 3, C: c + 3}, {K: "flush", N: 2, C: c + 4}, {K: "reopen"}}
 	runFamilies(out, root, *id, dir, "family created after a reopen")
+	*id++
+	// three commits at once: one of another family holds the manifest lock while two of the same family queue behind it
+	runFamilies(out, root, *id, []famOp{{K: "create", N: 1}, {K: "create", N: 2}, {K: "flush", N: 1, C: 10}, {K: "race", N: 1, M: 2, C: 11, C2: 12, C3: 13},
+		{K: "flush", N: 1, C: 14}, {K: "crash"}, {K: "race", N: 2, M: 1, C: 15, C2: 16, C3: 17}, {K: "reopen"}}, "racing commits of one family behind a commit of another")
 	*id++
 	for i := 0; i < n; i++ {
 		var ops []famOp
@@ -167,6 +238,15 @@ func familiesCases(out *vh.Out, root string, r *vh.Rand, n int, id *int) {
 				k := r.Range(1, 3)
 				created[k] = true
 				ops = append(ops, famOp{K: "create", N: k})
+			case x < 34 && len(created) >= 2:
+				var ks []int
+				for k := range created {
+					ks = append(ks, k)
+				}
+				sort.Ints(ks)
+				p := r.Perm(len(ks))
+				ops = append(ops, famOp{K: "race", N: ks[p[0]], M: ks[p[1]], C: next + 1, C2: next + 2, C3: next + 3})
+				next += 3
 			case x < 70:
 				var ks []int
 				for k := range created {
